@@ -25,6 +25,7 @@ import (
 
 	"github.com/LemoFoundationLtd/lemochain-core/chain/account"
 	"github.com/LemoFoundationLtd/lemochain-core/chain/params"
+	"github.com/LemoFoundationLtd/lemochain-core/common/crypto"
 	"github.com/LemoFoundationLtd/lemochain-core/chain/types"
 	"github.com/LemoFoundationLtd/lemochain-core/common"
 	"github.com/LemoFoundationLtd/lemochain-core/common/rlp"
@@ -521,6 +522,24 @@ func childRecover(args []string) {
 	if d := fx.Diff(p.ObsAt[fs.Hash().Hex()], fx.ObserveAt(n.DB, fs.Hash(), U, fx.ObsOpts{Roots: true, Versions: true}), 4); len(d) > 0 {
 		v("restarted-node-diverges:state", fmt.Sprintf("%v", d))
 	}
+	// contract code is stored under its hash: after the history was played again every code record has to hash to its key
+	// (a record torn by the crash is replaced when the deploying block is executed again)
+	{
+		am := account.NewManager(fs.Hash(), n.DB)
+		for _, a := range U.Addrs() {
+			ch := am.GetAccount(a).GetCodeHash()
+			if ch == (common.Hash{}) || ch == sha3Nil {
+				continue
+			}
+			stats["code_records_checked"]++
+			code, err := n.DB.GetContractCode(ch)
+			if err != nil {
+				v("contract-code-unreadable-after-replay", fmt.Sprintf("code %s of %s: %v", ch.Hex(), a.Hex(), err))
+			} else if crypto.Keccak256Hash(code) != ch {
+				v("contract-code-does-not-hash-to-its-key", fmt.Sprintf("the record under code hash %s (account %s) holds %d bytes that hash to %s", ch.Hex(), a.Hex(), len(code), crypto.Keccak256Hash(code).Hex()))
+			}
+		}
+	}
 	n.WaitQueue()
 	// stage 2: a recovery that looked clean must survive a further clean restart (a record that recovery skipped or
 	// a cursor it left stale shows only when later writes have landed and the queue file has been recycled)
@@ -744,6 +763,8 @@ func firstLines(s string, n int) string {
 	}
 	return strings.Join(ls, " | ")
 }
+
+var sha3Nil = crypto.Keccak256Hash(nil)
 
 func batches(tier string) int { return 16 }
 
